@@ -364,6 +364,9 @@ namespace bxdecay0 {
       if (ebb2 > e0) {
         ebb2 = e0;
       }
+      if (ebb1 >= ebb2) {
+        throw std::logic_error("bxdecay0::decay0_bb: Energy range does not overlap the available energy !");
+      }
       if (trace) {
         std::cerr << "[trace] bxdecay0::bb: ebb1 = " << ebb1 << std::endl;
       }
